@@ -61,6 +61,8 @@ var cssExtraPool = []string{
 var hostileFrags = []string{
 	"url(javascript:alert(1))", "url(data:text/html,x)", "url(//e.example/x)", "url(ftp://e/x)", "expression(alert(1))",
 	"javascript:alert(1)", "data:text/html,x", "\\", "\\75rl(", "<", ">", "</style>", "@import", "@",
+	// hostile constructs wrapped in function notation (a handler that learns calc() / var() / min() must not take these)
+	"calc(expression(alert(1)))", "calc(url(//e.example/x))", "calc(100% - url(javascript:x))", "var(--x, url(//e.example/x))", "min(1px, expression(alert(1)))",
 	// url() arguments that merely begin with the letters http
 	"url(httpx://e.x/a)", "url(httpdata:x)", "url(http:javascript:x)", "url(https:e.x/a)",
 }
@@ -381,6 +383,46 @@ func runC18(c *run.Ctx) {
 				} else {
 					c.Outcome("e2e|hostile-removed")
 				}
+			}
+		}
+	}
+	// names one edit away from a known property (a character prepended or appended, a vendor-prefix-like start, upper
+	// case, white space) are unknown properties: each must reject the values the known property accepts
+	known := map[string]bool{}
+	for _, p := range props {
+		known[p] = true
+	}
+	for _, prop := range props {
+		if !c.Own([]byte("c18near"), []byte(prop)) || c.Expired() {
+			continue
+		}
+		hk := css.GetDefaultHandler(prop)
+		var good string
+		for _, t := range pool {
+			if ok, _ := safeHandler(hk, t); ok {
+				good = t
+				break
+			}
+		}
+		if good == "" {
+			continue
+		}
+		var names []string
+		for _, ch := range "-_abcdefghijklmnopqrstuvwxyz0 " {
+			names = append(names, string(ch)+prop, prop+string(ch))
+		}
+		names = append(names, "--"+prop, "-x-"+prop, "x-"+prop, strings.ToUpper(prop), prop[1:], prop[:len(prop)-1], prop+"-"+prop)
+		for _, name := range names {
+			if known[name] {
+				continue
+			}
+			c.Eval()
+			c.Transitions++
+			if ok, _ := safeHandler(css.GetDefaultHandler(name), good); ok {
+				c.Violate("unknown-property|near", fmt.Sprintf("handler for unknown property %q accepts %s (a value of %s)", name, run.Q(good), prop), c18Case{name, run.B64([]byte(good)), run.Q(good), "unknown"})
+				c.Outcome("violation|unknown-property")
+			} else {
+				c.Outcome("unknown-property-rejects")
 			}
 		}
 	}
